@@ -576,3 +576,8 @@ CHECKS["C02"]["jobs"].append(J("hashfile-1cpu", VSTORE, "TestC02HashFile", {"sha
 CHECKS["C14"]["jobs"].append(J("records-1cpu", VSTORE, "TestC14Records", {"shards": 2, "checks": 60, "env": {"GOMAXPROCS": "1"}}, {"shards": 4, "checks": 3000, "env": {"GOMAXPROCS": "1"}}))
 CHECKS["C02"]["required_classes"]["all"] += ["handle-still-serves-writes-afterwards"]
 CHECKS["C04"]["required_classes"]["all"] = CHECKS["C04"].get("required_classes", {}).get("all", []) + ["mgmt-op:update", "bb-probes-concurrent"]
+CHECKS["C10"]["required_classes"]["all"] = CHECKS["C10"].get("required_classes", {}).get("all", []) + ["hooks-dir-made-world-writable-at-run-time"]
+CHECKS["C08"]["jobs"].append(J("reader-interleaving", VTRACE, "TestC08ReaderInterleaving", {"shards": 6, "checks": 6}, {"shards": 16, "checks": 600}))
+CHECKS["C08"]["required_classes"]["all"] += ["reader:authenticate", "reader-stopped-at:openat"]
+CHECKS["C01"]["jobs"].append(J("overlapping-writes", VSTORE, "TestC01OverlappingWrites", {"shards": 2, "n": 40}, {"shards": 8, "n": 3000}, rapid=False))
+CHECKS["C01"]["required_classes"]["all"] = CHECKS["C01"].get("required_classes", {}).get("all", []) + ["overlapping-updates-of-one-user", "overlapping-adds-of-one-user"]
